@@ -744,11 +744,14 @@ class DB:
         # `at` is normalized to `before`, since we use storage.loadBefore
         # as the underlying implementation of both.
         before = getTID(at, before)
-        if (before is not None and
-            before > self.lastTransaction() and
-                before > getTID(self.lastTransaction(), None)):
-            raise ValueError(
-                'cannot open an historical connection in the future.')
+        if before is not None:
+            # In a multi-database the newest transaction may have been
+            # committed to any of the databases.
+            last = max(db.lastTransaction()
+                       for db in self.databases.values())
+            if before > last and before > getTID(last, None):
+                raise ValueError(
+                    'cannot open an historical connection in the future.')
 
         if isinstance(transaction_manager, str):
             if transaction_manager:
